@@ -21,15 +21,24 @@ Definition both_ok (evs : list event) : bool :=
   conv_ok (repaired HookOk false) evs && conv_ok (repaired HookRaises true) evs &&
   conv_ok (repaired HookSlow false) evs && conv_ok (repaired HookAwaits true) evs.
 
+(* a second alphabet with a server-initiated request (handler task in the table) and a run of
+   its handler, explored to depth 6 *)
+Definition alphabet_h : list event :=
+  [Send; SrvWrite (Reply 0 (RResult 5)); SrvWrite (Request 0); HandlerStep 0; HandlerReturn 0;
+   UserCancel 0; ProcExit 1%Z TPartBody; ReaderRun; ServerExitTask; Stop].
+
+Section Check.
+Variable alpha : list event.
+
 Fixpoint check (n : nat) (rev_prefix : list event) : bool :=
   both_ok (rev rev_prefix) &&
   match n with
   | O => true
-  | S k => forallb (fun e => check k (e :: rev_prefix)) alphabet
+  | S k => forallb (fun e => check k (e :: rev_prefix)) alpha
   end.
 
 Lemma check_sound : forall n rp, check n rp = true ->
-  forall l, (length l <= n)%nat -> Forall (fun e => In e alphabet) l -> both_ok (rev rp ++ l) = true.
+  forall l, (length l <= n)%nat -> Forall (fun e => In e alpha) l -> both_ok (rev rp ++ l) = true.
 Proof.
   induction n as [|k IH]; intros rp H l L F; cbn [check] in H; apply andb_true_iff in H;
     destruct H as [H1 H2].
@@ -41,7 +50,12 @@ Proof.
     rewrite E. apply IH; [exact H2|cbn in L; apply le_S_n, L|exact Fl].
 Qed.
 
-Lemma check_7 : check 7 [] = true.
+End Check.
+
+Lemma check_7 : check alphabet 7 [] = true.
+Proof. vm_compute. reflexivity. Qed.
+
+Lemma check_6h : check alphabet_h 6 [] = true.
 Proof. vm_compute. reflexivity. Qed.
 
 (* every conversation of at most 7 events over the alphabet: the model's final observation
@@ -53,7 +67,20 @@ Theorem conv_expect_sound_bounded : forall evs,
   spec_ok (conv_expect evs) (observe (run (repaired HookSlow false) evs)) = true /\
   spec_ok (conv_expect evs) (observe (run (repaired HookAwaits true) evs)) = true.
 Proof.
-  intros evs L F W. pose proof (check_sound 7 [] check_7 evs L F) as H. cbn [rev app] in H.
+  intros evs L F W. pose proof (check_sound alphabet 7 [] check_7 evs L F) as H. cbn [rev app] in H.
+  unfold both_ok, conv_ok in H. rewrite W in H. rewrite !andb_true_iff in H.
+  destruct H as (((A & B) & C) & D). auto.
+Qed.
+
+(* the same with handler tasks of server-initiated requests in the table, up to 6 events *)
+Theorem conv_expect_sound_bounded_handlers : forall evs,
+  (length evs <= 6)%nat -> Forall (fun e => In e alphabet_h) evs -> wf_conv evs = true ->
+  spec_ok (conv_expect evs) (observe (run (repaired HookOk false) evs)) = true /\
+  spec_ok (conv_expect evs) (observe (run (repaired HookRaises true) evs)) = true /\
+  spec_ok (conv_expect evs) (observe (run (repaired HookSlow false) evs)) = true /\
+  spec_ok (conv_expect evs) (observe (run (repaired HookAwaits true) evs)) = true.
+Proof.
+  intros evs L F W. pose proof (check_sound alphabet_h 6 [] check_6h evs L F) as H. cbn [rev app] in H.
   unfold both_ok, conv_ok in H. rewrite W in H. rewrite !andb_true_iff in H.
   destruct H as (((A & B) & C) & D). auto.
 Qed.
